@@ -19,7 +19,7 @@ EXPLANATION = ('(R01.1) in every stacked-cache entry point every content write (
                'accepted key names denote distinct files: the validator returns its argument unchanged and only after the '
                'first-byte and whole-name separator tests (= R16.2/R16.3). Atomicity of '
                'rename/link/open is POSIX, trusted; interleavings are not enumerated.')
-FLOORS = {'R01.1': 8, 'R01.2': 4, 'R01.3': 6, 'R01.4': 2, 'R01.5': 2, 'R01.6': 5}
+FLOORS = {'R01.1': 8, 'R01.2': 4, 'R01.3': 6, 'R01.4': 2, 'R01.5': 2, 'R01.6': 5, 'R01.7': 17}
 FIXTURE_RULES = ['R01.1']
 
 INPLACE = {'open_rw', 'truncate', 'ns_create_file'}
@@ -209,9 +209,17 @@ def r01_6(ctx):
     return out
 
 
+def r01_7(ctx):
+    """"when read to the end, exactly the complete bytes": a handle handed out at a non-zero offset yields a truncated or
+    empty value, so every returned handle is rewound after whatever consumed it (= R19.2 over the stacked / read-only
+    lookups, R19.4 in the lower-layer lookups)."""
+    from rules import c19
+    return [inst('R01.7', i['key'].split('|', 1)[1], i['ok'], i['detail'], path=i.get('path') or []) for i in c19.r19_2(ctx) + c19.r19_4(ctx)]
+
+
 def run(ctx):
     from runner import collect
-    return collect(ctx, r01_1, r01_2, r01_3, r01_4, r01_5, r01_6)
+    return collect(ctx, r01_1, r01_2, r01_3, r01_4, r01_5, r01_6, r01_7)
 
 
 def run_fixture(fctx):
